@@ -327,7 +327,7 @@ func TestP1Streams(t *testing.T) {
 func TestP2Short(t *testing.T) {
 	rec := ev.New("C14", "short")
 	defer rec.Finish(t)
-	rec.Rule("streams whose last segment is binary and shorter than declared: cut at every position 0..len-1 (including no data at all), preceded by 0-3 complete segments, read with drawn buffer patterns and chunk schedules: io must end with a non-nil, non-EOF error. Non-trivial: every (stream, cut, buffer pattern).")
+	rec.Rule("streams whose last segment is binary and shorter than declared: cut at every position 0..len-1 (including no data at all), preceded by 0-3 complete segments, read with drawn buffer patterns and chunk schedules (a third of the cases hands the rest of the stream to io.Copy after 0-3 reads): io must end with a non-nil, non-EOF error. Non-trivial: every (stream, cut, buffer pattern).")
 	bug := shortBinBug(rec)
 	ev.SetupRapid(40000, 2000000)
 	rapid.Check(t, func(t *rapid.T) {
@@ -350,6 +350,12 @@ func TestP2Short(t *testing.T) {
 			c.Chunks = genSizes(t, "chunk", 50)
 		}
 		c.WithEOF = rapid.Bool().Draw(t, "witheof")
+		if rapid.IntRange(0, 2).Draw(t, "copytail") == 0 {
+			// after 0-3 reads the rest goes through io.Copy (the decoder's
+			// WriteTo method, if it has one)
+			c.CopyAfter = 1 + rapid.IntRange(0, 3).Draw(t, "copyafter")
+			rec.Class("reads-then-io.Copy")
+		}
 		if bug {
 			rec.Excluded("known finding: short binary segment ends in clean EOF")
 			return
